@@ -108,6 +108,15 @@ class Outbound(explore.Scenario):
 
         def all_out():
             return len(n.peer.received()) - baseline >= total + (64 if inbound.startswith("dwr") else 0)
+        if P.get("close_after"):
+            # the application stops the node right after submitting: what it has submitted is still written,
+            # ahead of the DPR; the peer answers the DPR
+            n.diameter.close()
+            if n.peer.wait_for(lambda: any(node.header_of(m)["code"] == 282 for m in node.split_stream(n.peer.received()[baseline:])[0]),
+                               "dpr-seen", timeout=rt.stall_time + 10.0):
+                dprs = [m for m in node.split_stream(n.peer.received()[baseline:])[0] if node.header_of(m)["code"] == 282]
+                h = node.header_of(dprs[-1])
+                n.peer.send(node.dpa(h["hbh"], h["e2e"]))
         n.peer.wait_for(all_out, "all-written", timeout=rt.stall_time + 10.0)
         n.settle(rt.stall_time + 2.0)
         obs["out"] = n.peer.received()[baseline:].hex()
@@ -149,6 +158,10 @@ class Outbound(explore.Scenario):
                 h = node.header_of(m)
                 if h["code"] == 280:      # DWA for the inbound DWR / DWR of the node's own watchdog
                     continue
+                if h["code"] == 282 and P.get("close_after"):      # the DPR of the local close
+                    if seen and len(seen) < len(want):
+                        errs.append((f"C05:dpr-before-submitted:{shape}", "the DPR was written before messages submitted earlier"))
+                    continue
                 foreign.append(hx[:64])
         if rest:
             errs.append((f"C05:torn-tail:{shape}", f"the byte stream ends with {len(rest)} bytes that are not a whole message: "
@@ -188,7 +201,7 @@ def plan(tier):
     thorough = tier == "thorough"
 
     def P(**kw):
-        d = dict(k=1, per=1, inbound="none", role="server", partial=True, batch=False, send_buffer=None)
+        d = dict(k=1, per=1, inbound="none", role="server", partial=True, batch=False, send_buffer=None, close_after=False)
         d.update(kw)
         return d
     # quick: the core shapes at d = 1
@@ -200,7 +213,11 @@ def plan(tier):
     yield P(k=1, per=2, send_buffer=96), 1
     yield P(k=1, per=3, batch=True, send_buffer=96), 1
     yield P(k=1, per=1, inbound="app-on-data"), 1
+    yield P(k=1, per=3, batch=True, send_buffer=96, close_after=True), 0
+    yield P(k=1, per=2, close_after=True), 1
     if thorough:
+        yield P(k=1, per=3, batch=True, send_buffer=96, close_after=True), 1
+        yield P(k=2, per=2, send_buffer=96, close_after=True), 1
         yield P(k=1, per=1, inbound="dwr-on-data"), 1
         yield P(k=2, per=1, inbound="app-on-data"), 1
         yield P(k=1, per=1, inbound="app-on-data"), 2
@@ -233,8 +250,9 @@ def _shard(rep, arg):
                     "env_choice_points": sum(1 for p in base.points if p.kind == "env.write")})
     else:
         base = explore.execute(scn)
-    firsts = explore.successors(base, ())
-    explore.explore_subtree(scn, firsts[k::n], bound, rep, stats)
+    if bound >= 1:
+        firsts = explore.successors(base, ())
+        explore.explore_subtree(scn, firsts[k::n], bound, rep, stats)
     rep.add(evaluations=stats["executions"], distinct=stats["executions"], executions=stats["executions"],
             scheduling_points=stats["points"])
 
@@ -244,7 +262,7 @@ def run(report, tier, seed):
     nscn = 0
     for params, bound in plan(tier):
         nscn += 1
-        n = 8 if bound == 1 else 64
+        n = 1 if bound == 0 else 8 if bound == 1 else 64
         shards += [(params, bound, k, n) for k in range(n)]
     k = seed % max(1, len(shards))
     shards = shards[k:] + shards[:k]
